@@ -248,7 +248,34 @@ def showDoc (p : P Float) : String :=
   let ls := String.intercalate " " (p.layers.reverse.map showLayer)
   s!"{h p.cw} {h p.ch} {b01 p.err} {p.layers.length} {ls}"
 
+def pelem : Pr Elem := fun ts => do
+  let (tag, ts) ← str ts
+  let (keys, ts) ← counted str ts
+  let kv : Pr (String × String) := fun ts => do
+    let (k, ts) ← str ts; let (v, ts) ← str ts; pure ((k, v), ts)
+  let (vals, ts) ← counted kv ts
+  let kw : Pr (String × List String) := fun ts => do
+    let (k, ts) ← str ts; let (w, ts) ← counted str ts; pure ((k, w), ts)
+  let (words, ts) ← counted kw ts
+  pure (⟨tag, keys, vals, words⟩, ts)
+
 def handle : List String → Option String
+  -- the pieces of the semantic layer on their own (inputs from the real functions through hooks)
+  | "XF" :: ts => do
+    let (l, ts) ← counted xfn ts
+    if ts != [] then none else
+    let (m, e) := parseTransform opsF l
+    pure s!"{h m.a} {h m.b} {h m.c} {h m.d} {h m.e} {h m.f} {b01 e}"
+  | "DIM" :: ts => do
+    let (n, ts) ← fl ts; let (u, ts) ← str ts; let (par, ts) ← fl ts
+    if ts != [] then none else
+    let (v, e) := parseDimension opsF n u par
+    pure s!"{h v} {b01 e}"
+  | "SEL" :: ts => do
+    let (sel, ts) ← counted selNode ts
+    let (elems, ts) ← counted pelem ts
+    if ts != [] then none else
+    pure (b01 (ruleApplies (⟨[sel], []⟩ : Rule Float) elems.reverse))
   | "DOC" :: ts => do
     let (lens, ts) ← counted fl ts
     let (w, ts) ← optDim ts
